@@ -47,8 +47,16 @@ WeakIsStrict == out = <<>> => (WeaklySorted(item.rule, input) <=> StrictlySorted
 PrefixInvariant == out = <<>> => \A a, b \in item.set : LenFirstLT(<<65, 46>> \o a, <<65, 46>> \o b) <=> LenFirstLT(a, b)
 \* the two rules differ: some pair is ordered differently (checked on the universe, not per state)
 
+\* A second presentation for the composite-field category: another composite type with the SAME qualified name at
+\* another address, declared in the reverse order with one more (longest) field. Every type definition of a message
+\* is sorted on its own, so its canonical order is that of its own field set.
+ExtraName == <<122, 122, 122, 122>>
+Rev(s) == [i \in 1..Len(s) |-> s[Len(s) + 1 - i]]
+Other == [input |-> Append(Rev(input), ExtraName), canon |-> Canon(item.rule, item.set \cup {ExtraName})]
+OtherSorted == rest = {} => StrictlySorted(item.rule, Other.canon) /\ SeqSet(Other.canon) = SeqSet(Other.input)
+
 Row == [cat |-> item.cat, rule |-> item.rule, input |-> input, canon |-> out, amap |-> item.amap,
-        accept |-> StrictlySorted(item.rule, input)]
+        accept |-> StrictlySorted(item.rule, input), other |-> Other]
 EmitRow == rest = {} => PrintT(ToJson(Row))
 
 =============================================================================
